@@ -348,6 +348,16 @@ struct Pre {
     mintable: Option<u64>,
     end_time: Option<u64>,
     now: u64,
+    /// tiered whitelists, computed HERE from the Stages list: the stage the property calls active = the earliest
+    /// stage whose window, both ends inclusive, contains the block time (1-based like ActiveStageId), with its
+    /// per-address limit, mint_count_limit, price, and the caller's per-stage membership (StageMemberInfo)
+    tiered: bool,
+    prop_stage: Option<u64>,
+    prop_limit: Option<u64>,
+    prop_cap: Option<u64>,
+    prop_price: Option<String>,
+    prop_member: Option<(bool, u64)>,
+    cfg_price: Option<String>,
 }
 fn snapshot(app: &chain::App, c: &Value, mintable: Option<u64>, who: &str) -> Pre {
     let wl = c["whitelist"].as_str().map(|s| s.to_string());
@@ -362,11 +372,35 @@ fn snapshot(app: &chain::App, c: &Value, mintable: Option<u64>, who: &str) -> Pr
         mintable,
         end_time: c.get("end_time").and_then(|x| x.as_str()).and_then(|x| x.parse().ok()),
         now: chain::now(app),
+        tiered: false,
+        prop_stage: None,
+        prop_limit: None,
+        prop_cap: None,
+        prop_price: None,
+        prop_member: None,
+        cfg_price: None,
     };
     if let Some(a) = &wl {
         if let Some(wc) = q(app, a, json!({"config": {}})) {
             p.active = wc["is_active"].as_bool().unwrap_or(false);
             p.wl_limit = wc.get("per_address_limit").and_then(|x| x.as_u64());
+            p.cfg_price = wc["mint_price"]["amount"].as_str().map(|x| x.to_string());
+        }
+        if let Some(st) = q(app, a, json!({"stages": {}})).and_then(|v| v["stages"].as_array().cloned()) {
+            p.tiered = true;
+            let t = |v: &Value| v.as_str().and_then(|x| x.parse::<u64>().ok()).unwrap_or(0);
+            for (i, sr) in st.iter().enumerate() {
+                let sg = &sr["stage"];
+                if t(&sg["start_time"]) <= p.now && p.now <= t(&sg["end_time"]) {
+                    p.prop_stage = Some(i as u64 + 1);
+                    p.prop_limit = sg.get("per_address_limit").and_then(|x| x.as_u64());
+                    p.prop_cap = sg["mint_count_limit"].as_u64();
+                    p.prop_price = sg["mint_price"]["amount"].as_str().map(|x| x.to_string());
+                    p.prop_member = q(app, a, json!({"stage_member_info": {"stage_id": i, "member": who}}))
+                        .map(|v| (v["is_member"].as_bool().unwrap_or(false), v["per_address_limit"].as_u64().unwrap_or(0)));
+                    break;
+                }
+            }
         }
         p.stage_id = q(app, a, json!({"active_stage_id": {}})).and_then(|v| v.as_u64());
         if let Some(id) = p.stage_id {
@@ -392,6 +426,7 @@ struct Mon {
     wl_sum: BTreeMap<String, u64>,
     stage_by: BTreeMap<(String, u64), u64>,
     purged: bool,
+    mismatch_reported: bool,
     violations: Vec<(String, String)>,
 }
 impl Mon {
@@ -406,30 +441,43 @@ impl Mon {
             wl_sum: BTreeMap::new(),
             stage_by: BTreeMap::new(),
             purged: false,
+            mismatch_reported: false,
             violations: vec![],
         }
     }
     fn mint_ok(&mut self, who: &str, p: &Pre, m_stage: Option<u32>, m_proof: bool, m_alloc: Option<u32>, desc: &str) {
         let vname = self.fam.name;
-        if p.wl.is_some() && p.active {
+        // whitelist phase: a whitelist is attached and active; for a tiered whitelist "active" and "which stage" are
+        // what the property says (earliest stage whose inclusive window contains the block time), computed in
+        // `snapshot` from the Stages list, not taken from ActiveStageId / Config
+        let in_wl = p.wl.is_some() && if p.tiered { p.prop_stage.is_some() } else { p.active };
+        if in_wl {
             // ---- a whitelist mint: entitlement in force, from the whitelist's own answers ----
             let wl = p.wl.clone().unwrap();
             let k = self.kinds.get(&wl).cloned().unwrap_or_default();
-            let slot = if is_tiered(&k) { p.stage_id.unwrap_or(99) } else { 0 };
+            let slot = if p.tiered { p.prop_stage.unwrap_or(99) } else { 0 };
+            let stage_limit = if p.tiered { p.prop_limit } else { p.wl_limit };
             let proven = is_merkle(&k)
                 && m_proof
                 && self.specs.get(&wl).map_or(false, |sp| {
-                    let i = if is_tiered(&k) { p.stage_id.unwrap_or(0).saturating_sub(1) as usize } else { 0 };
+                    let i = if p.tiered { slot.saturating_sub(1) as usize } else { 0 };
                     i < sp.stages.len() && sp.stage_leaves(i).contains(&leaf(m_stage, who, m_alloc))
                 });
             let ent: u64 = if is_flex(&k) {
-                p.member_count.unwrap_or(0)
+                if p.tiered {
+                    p.prop_member.map_or(0, |(is, n)| if is { n } else { 0 })
+                } else {
+                    p.member_count.unwrap_or(0)
+                }
             } else if is_merkle(&k) {
                 if !proven {
                     0
                 } else {
-                    m_alloc.map(|a| a as u64).unwrap_or(p.wl_limit.unwrap_or(0))
+                    m_alloc.map(|a| a as u64).unwrap_or(stage_limit.unwrap_or(0))
                 }
+            } else if p.tiered {
+                // only a member of THAT stage is entitled, to that stage's limit
+                if p.prop_member.map_or(false, |(is, _)| is) { stage_limit.unwrap_or(0) } else { 0 }
             } else {
                 p.wl_limit.unwrap_or(0)
             };
@@ -445,10 +493,10 @@ impl Mon {
                     format!("{} + {} whitelist: {} completed whitelist mint #{} (stage slot {}) with entitlement {} in force ({})", vname, k, who, n, slot, ent, desc),
                 ));
             }
-            if is_tiered(&k) {
+            if p.tiered {
                 let t = self.stage_by.entry((wl.clone(), slot)).or_insert(0);
                 *t += 1;
-                if let Some(Some(cap)) = p.stage_cap {
+                if let Some(cap) = p.prop_cap {
                     if *t > cap {
                         self.violations.push((
                             "C03:stage-limit-exceeded".into(),
@@ -469,6 +517,38 @@ impl Mon {
                     format!("{}: {} completed public mint #{} with per-address limit {} in force", vname, who, n, p.pal),
                 ));
             }
+        }
+    }
+    /// a tiered whitelist must describe ONE active stage: Config (is_active, limit, price), ActiveStageId and the
+    /// stage windows have to agree (the minters take the limit from Config and the counter bucket from ActiveStageId)
+    fn consistent(&mut self, p: &Pre) {
+        if !p.tiered || p.wl.is_none() || self.mismatch_reported {
+            return;
+        }
+        let k = self.kinds.get(p.wl.as_ref().unwrap()).cloned().unwrap_or_default();
+        let mut what = vec![];
+        if p.active != p.prop_stage.is_some() {
+            what.push(format!("Config.is_active = {} but the stage windows give {:?}", p.active, p.prop_stage));
+        }
+        if p.prop_stage.is_some() || p.stage_id.is_some() {
+            if p.stage_id.filter(|x| *x > 0) != p.prop_stage {
+                what.push(format!("ActiveStageId = {:?} but the earliest stage containing the block time is {:?}", p.stage_id, p.prop_stage));
+            }
+        }
+        if p.active && p.prop_stage.is_some() {
+            if !is_flex(&k) && p.wl_limit != p.prop_limit {
+                what.push(format!("Config.per_address_limit = {:?} but that stage's limit is {:?}", p.wl_limit, p.prop_limit));
+            }
+            if p.cfg_price != p.prop_price {
+                what.push(format!("Config.mint_price = {:?} but that stage's price is {:?}", p.cfg_price, p.prop_price));
+            }
+        }
+        if !what.is_empty() {
+            self.mismatch_reported = true;
+            self.violations.push((
+                "C03:tiered-config-vs-active-stage-mismatch".into(),
+                format!("{} + {} whitelist at block time {}: {}", self.fam.name, k, p.now, what.join("; ")),
+            ));
         }
     }
     fn airdrop_ok(&mut self, who: &str) {
@@ -700,6 +780,9 @@ fn run_case_vending(c: &Case) -> CaseResult {
                     }
                     _ => None,
                 };
+                if let Some((_, p)) = &pre {
+                    mon.consistent(p);
+                }
                 let out = w.run(op);
                 if out.ok {
                     match (op, &pre) {
@@ -858,6 +941,9 @@ fn run_case_oe(c: &Case) -> CaseResult {
                     }
                     _ => None,
                 };
+                if let Some((_, p)) = &pre {
+                    mon.consistent(p);
+                }
                 let out = w.run(op);
                 if out.ok {
                     match (op, &pre) {
@@ -1210,6 +1296,17 @@ fn history(rng: &mut Rng, p: &Plan, tag: &str) -> Case {
             ops.push(at(st.start, -1));
             ops.push(honest_mint(&v, &sp, i, BUYERS[0], WL_PRICE));
             ops.push(at(st.start, 0));
+            if i > 0 && sp.stages[i - 1].end == st.start {
+                // the shared instant of two touching stages: the EARLIER stage is still the active one; members of
+                // either stage try with either stage's arguments, then the new stage starts one nanosecond later
+                for b in BUYERS {
+                    ops.push(honest_mint(&v, &sp, i - 1, b, WL_PRICE));
+                    if is_merkle(&sp.kind) {
+                        ops.push(honest_mint(&v, &sp, i, b, WL_PRICE));
+                    }
+                }
+                ops.push(at(st.start, 1));
+            }
             burst(rng, &pp, &v, &sp, i, &mut ops, !p.noise);
             if p.noise && rng.chance(1, 2) {
                 // whitelist-side limit changes mid-stage, then another round
@@ -1668,6 +1765,104 @@ fn corpus() -> Vec<Case> {
     v
 }
 
+/// touching stages (end(i) == start(i+1)) with different per-address limits, caps and member sets, both orders
+/// (3 -> 1 -> 3), on every minter family with its tiered whitelist kind(s); A-only = buyer1 (stages 1 and 3),
+/// B-only = buyer2 (stage 2), both = buyer3; mints at T-1ns, T, T+1ns of both shared instants and of the first
+/// start and the last end, up to and past each limit
+fn touching_stage_cases() -> Vec<Case> {
+    let mut v = vec![];
+    for variant in 0..9usize {
+        let var = fam(variant);
+        let kinds: Vec<&str> = if var.flex {
+            vec!["tiered-flex"]
+        } else if var.merkle && var.oe {
+            vec!["tiered-merkle"]
+        } else if var.merkle {
+            vec!["tiered-merkle", "tiered"]
+        } else {
+            vec!["tiered"]
+        };
+        for kind in kinds {
+            let st = |s: u64, e: u64, limit: u32, cap: Option<u32>, m: Vec<(&str, u32)>| StageSpec {
+                start: s,
+                end: e,
+                limit,
+                cap,
+                members: m.into_iter().map(|(a, n)| (a.to_string(), n)).collect(),
+                noalloc: vec![],
+            };
+            let sp = WlSpec {
+                kind: kind.into(),
+                price: WL_PRICE,
+                ibc: false,
+                stages: vec![
+                    st(1000, 1300, 3, Some(7), vec![("buyer1", 3), ("buyer3", 3)]),
+                    st(1300, 1600, 1, Some(2), vec![("buyer2", 1), ("buyer3", 1)]),
+                    st(1600, 1900, 3, None, vec![("buyer1", 3), ("buyer3", 2)]),
+                ],
+            };
+            let merkle = is_merkle(kind);
+            // one attempt of `who` with the arguments of stage i (and, on the Merkle kind, also those of stage j)
+            let go = |ops: &mut Vec<COp>, who: &str, i: usize, j: Option<usize>, times: usize| {
+                for _ in 0..times {
+                    ops.push(honest_mint(&var, &sp, i, who, WL_PRICE));
+                    if let (true, Some(j)) = (merkle, j) {
+                        ops.push(honest_mint(&var, &sp, j, who, WL_PRICE));
+                    }
+                }
+            };
+            let mut ops = vec![COp::MakeWl(sp.clone()), COp::Attach { who: CREATOR.into() }];
+            ops.push(at(1000, -1));
+            for b in BUYERS {
+                go(&mut ops, b, 0, None, 1);
+            }
+            ops.push(at(1000, 0)); // first start: inclusive
+            go(&mut ops, "buyer1", 0, None, 4);
+            go(&mut ops, "buyer3", 0, None, 2);
+            go(&mut ops, "buyer2", 0, Some(1), 1);
+            ops.push(at(1300, -1));
+            go(&mut ops, "buyer3", 0, None, 1);
+            go(&mut ops, "buyer2", 0, Some(1), 1);
+            ops.push(at(1300, 0)); // T1: stage 1 (limit 3) is still the active one; buyer1 and buyer3 are at their limit
+            go(&mut ops, "buyer2", 1, Some(0), 3);
+            go(&mut ops, "buyer3", 0, Some(1), 2);
+            go(&mut ops, "buyer1", 0, Some(1), 1);
+            ops.push(at(1300, 1)); // stage 2: limit 1, cap 2
+            go(&mut ops, "buyer2", 1, None, 2);
+            go(&mut ops, "buyer3", 1, None, 2);
+            go(&mut ops, "buyer1", 1, Some(0), 1);
+            ops.push(at(1600, -1));
+            go(&mut ops, "buyer2", 1, None, 1);
+            ops.push(at(1600, 0)); // T2: stage 2 (limit 1) is still the active one
+            go(&mut ops, "buyer1", 2, Some(1), 2);
+            go(&mut ops, "buyer3", 1, Some(2), 2);
+            go(&mut ops, "buyer2", 1, Some(2), 1);
+            ops.push(at(1600, 1)); // stage 3: limit 3, no cap
+            go(&mut ops, "buyer1", 2, None, 4);
+            go(&mut ops, "buyer3", 2, None, 3);
+            go(&mut ops, "buyer2", 2, Some(1), 1);
+            ops.push(at(1900, 0)); // last end: inclusive
+            go(&mut ops, "buyer1", 2, None, 1);
+            go(&mut ops, "buyer2", 2, None, 1);
+            ops.push(at(1900, 1));
+            go(&mut ops, "buyer3", 2, None, 1);
+            v.push(Case {
+                tag: format!("corpus:touching-stages:{}:{}", var.name, kind),
+                variant,
+                num_tokens: 30,
+                pal: 2,
+                price: PUB_PRICE,
+                start_in: START,
+                end_in: if variant >= 6 { Some(6000) } else { None },
+                unlimited: false,
+                init_wl: None,
+                ops,
+            });
+        }
+    }
+    v
+}
+
 /// pairings the wire formats do not admit: creation with / SetWhitelist to an incompatible kind, then mints
 fn incompatible_cases() -> Vec<Case> {
     let mut v = vec![];
@@ -1758,6 +1953,7 @@ fn shrink(c: &Case, key: &str) -> Case {
 fn all_cases(a: &Args) -> Vec<Case> {
     let mut rng = Rng::new(a.seed);
     let mut v = corpus();
+    v.extend(touching_stage_cases());
     for (tag, p) in probe_plans() {
         v.push(history(&mut rng, &p, &tag));
     }
